@@ -330,6 +330,10 @@ def main(argv=None):
         print(f"CHECKER-ERROR job={jb} generated zero obligations")
     for o in und_plain[:10]:
         print(f"UNDECIDED {o['id']} {o.get('note', '')}")
+    if und_plain or expected_unknown:
+        with open(os.path.join(ROOT, "replays", f"{pid}-undecided.txt"), "w") as f:
+            for o in und_plain + expected_unknown:
+                f.write(f"{o['id']}\t{o.get('note', '')}\n")
 
     by_backend = {}
     solver_s = 0.0
